@@ -20,7 +20,7 @@ ASSUMPTIONS = ["EMA starts from 0 (the callback's documented zero initial state)
 
 def units(tier):
     return [{"name": n, "timeout": 2400} for n in ("next_direct", "learn_records", "iteration_records", "average_reward",
-                                                     "average_reward_stateful")]
+                                                     "average_reward_stateful", "average_reward_stochastic")]
 
 
 # ----------------------------------------------------------------------------------- (a)
@@ -540,7 +540,107 @@ def u_average_reward_stateful(ctx):
     ctx.require("stateful_policy_evaluations_with_varying_actions", 5)
 
 
+def u_average_reward_stochastic(ctx):
+    """A stochastic environment evaluated with a stochastic policy: every step the environment flips a fair coin
+    with its transition key and pays 1 when the coin equals the action, and the policy plays a fair coin drawn
+    with its own key. Independent draws give a return that is Binomial(T, 1/2); the mean over the episodes is
+    judged inside a 6-sigma band of T/2 (and an all-agree / all-differ stream is what shared keys produce)."""
+    import equinox as eqx
+    import jax
+    import jax.numpy as jnp
+    from jax import random as jr
+    from typing import ClassVar
+    from lerax.benchmark import average_reward
+    from lerax.env import AbstractEnv, AbstractEnvState
+    from lerax.policy import AbstractPolicy
+    from lerax.space import Box, Discrete
+
+    class CoinState(AbstractEnvState):
+        t: jax.Array
+        hit: jax.Array
+
+    class CoinEnv(AbstractEnv):
+        name: ClassVar[str] = "CoinEnv"
+        action_space: object
+        observation_space: object
+        T: int = eqx.field(static=True)
+
+        def __init__(self, T):
+            self.T = T
+            self.action_space, self.observation_space = Discrete(2), Box(0.0, 1e6, shape=(1,))
+
+        def initial(self, *, key):
+            return CoinState(jnp.array(0, jnp.int32), jnp.array(0.0, jnp.float32))
+
+        def action_mask(self, state, *, key):
+            return None
+
+        def transition(self, state, action, *, key):
+            coin = jr.bernoulli(key, 0.5).astype(jnp.int32)
+            return CoinState(state.t + 1, (coin == jnp.asarray(action).astype(jnp.int32)).astype(jnp.float32))
+
+        def observation(self, state, *, key):
+            return state.t[None].astype(jnp.float32)
+
+        def reward(self, state, action, next_state, *, key):
+            return next_state.hit
+
+        def terminal(self, state, *, key):
+            return state.t >= self.T
+
+        def truncate(self, state):
+            return jnp.array(False)
+
+        def state_info(self, state):
+            return {}
+
+        def transition_info(self, state, action, next_state):
+            return {}
+
+        def default_renderer(self):
+            raise NotImplementedError
+
+        def render(self, state, renderer):
+            raise NotImplementedError
+
+    class CoinPolicy(AbstractPolicy):
+        name: ClassVar[str] = "CoinPolicy"
+        action_space: object
+        observation_space: object
+
+        def __init__(self, env):
+            self.action_space, self.observation_space = env.action_space, env.observation_space
+
+        def reset(self, *, key):
+            return None
+
+        def __call__(self, state, observation, *, key=None, action_mask=None):
+            a = jnp.array(0, jnp.int32) if key is None else jr.bernoulli(key, 0.5).astype(jnp.int32)
+            return None, a
+
+    jar = eqx.filter_jit(average_reward)
+    for c in range(ctx.n(6, 30)):
+        T = int(ctx.rng.integers(3, 12))
+        n_ep = int(ctx.rng.choice([256, 512, 1024]))
+        cap = [None, T, T + 5, 64][c % 4]
+        env = CoinEnv(T)
+        got = float(jar(env, CoinPolicy(env), num_episodes=n_ep, max_steps=cap, deterministic=False, key=ctx.key(c)))
+        mean, sd = T / 2.0, (T / 4.0) ** 0.5 / n_ep ** 0.5
+        info = {"T": T, "episodes": n_ep, "cap": cap, "got": got, "expected": mean, "sigma_of_the_mean": sd}
+        ctx.case(info, nontrivial=True, cls=f"average_reward/stochastic/{'while' if cap is None else 'scan'}")
+        ctx.monitor("stochastic_evaluations")
+        ctx.monitor(f"stochastic_evaluations/{'while' if cap is None else 'scan'}")
+        if abs(got - mean) > 6.0 * sd:
+            ctx.violation("average-reward-of-independent-coin-flips-outside-6-sigma",
+                          {**info, "sigmas": (got - mean) / sd,
+                           "note": "T or 0 is what an action key shared with the transition produces"})
+    ctx.require("stochastic_evaluations/while", 1)
+    ctx.require("stochastic_evaluations/scan", 3)
+
+
 def run_unit(name, ctx):
+    if name == "average_reward_stochastic":
+        return u_average_reward_stochastic(ctx)
     if name == "average_reward_stateful":
         return u_average_reward_stateful(ctx)
     {"next_direct": u_next_direct, "learn_records": u_learn_records, "iteration_records": u_iteration_records,
